@@ -1861,6 +1861,13 @@ fn session(ctx: &Ctx, kernel: &K) -> WorldResult {
                 // the window only ever changes size together with a SIGWINCH
                 let resize = k.src.chance(1, 2) && sig == libc::SIGWINCH;
                 k.schedule(delay, Ev::Signal(sig, resize));
+                if resize && k.src.chance(1, 3) {
+                    // the user drags the window: another size shortly afterwards, while the
+                    // question about the first one may still be queued, on its way or answered
+                    let gap = k.src.draw(800) as u64 * US;
+                    k.schedule(delay + gap, Ev::Signal(sig, true));
+                    k.src.fault("window-dragged");
+                }
                 if k.src.chance(1, 4) {
                     // burst / duplicate
                     k.schedule(delay + 1, Ev::Signal(sig, false));
